@@ -26,6 +26,10 @@ func genCase(seed int64, c int, tier string) (syncdrv.ChainSpec, []syncdrv.Item)
 	for k := r.Intn(3); k > 0; k-- {
 		evs = syncdrv.InsertAt(evs, r.Intn(len(evs)+1), syncdrv.Item{T: "restart"})
 	}
+	// transient read faults of the store in 2 of 5 histories
+	if r.Intn(5) < 2 {
+		evs = syncdrv.AddFaults(r, evs)
+	}
 	return spec, evs
 }
 
@@ -108,7 +112,8 @@ func p2pChains(e *vgen.Env) []syncdrv.P2PChain {
 	if e.Tier == "thorough" {
 		n = 419
 	}
-	return []syncdrv.P2PChain{{Initial: 1, N: n, Seed: e.Seed}, {Initial: []uint64{2, 7, 1000}[int(e.Seed%3+3)%3], N: n, Seed: e.Seed}}
+	// the second chain is produced and synced with a non-default signature payload provider
+	return []syncdrv.P2PChain{{Initial: 1, N: n, Seed: e.Seed}, {Initial: []uint64{2, 7, 1000}[int(e.Seed%3+3)%3], N: n, Seed: e.Seed, Provider: 1}}
 }
 
 func p2pViolates(t *testing.T, sc syncdrv.P2PScenario, steps []syncdrv.P2PStep, tmp, sig string) bool {
@@ -264,9 +269,29 @@ func TestVerif(t *testing.T) {
 		if spec.HasEqualTxLists() {
 			res.Count("chain:equal-non-empty-tx-lists")
 		}
+		res.Count(fmt.Sprintf("signature-payload-provider:%d", spec.Provider))
+		pendingAtRestart := false
 		for _, it := range hist {
 			res.Count("item:" + it.T)
+			switch {
+			case it.F == 1:
+				res.Count("read-fault:height-read-of-the-loop-case")
+			case it.F >= 2:
+				res.Count("read-fault:height-read-inside-trySyncNextBlock")
+			}
+			if it.G {
+				res.Count("read-fault:GetBlockData")
+			}
+			if it.T == "restart" {
+				pendingAtRestart = true
+			}
 		}
+		if spec.Provider != 0 && pendingAtRestart {
+			res.Count("custom-provider-chain-with-clean-restart")
+		}
+		res.Distribution["read-faults-delivered"] += cr.FaultsFired
+		res.Distribution["events-lost-to-a-failed-height-read"] += cr.LostEvents
+		res.Distribution["sync-loop-returned-at-a-failed-height-read"] += cr.Halts
 		if cr.Applied == len(c.Headers) {
 			res.Count("outcome:fully-synced")
 		} else {
@@ -290,7 +315,7 @@ func TestVerif(t *testing.T) {
 		}
 	}
 	res.Distinct = len(distinct)
-	res.Rule = "chains of 3..13 blocks (thorough: ..41) from a real aggregator Manager (initial height in {1,2,5,1000}, ~35% empty blocks with runs, 10% of chains repeat a non-empty tx list); history = every header/data event of the chain (25% of histories drop ~8% of events), duplicated 1-3x, order in {sorted, reversed, headers-first, data-first, near-sorted, shuffled}, random DA tags, 0-2 clean restarts (SaveCache + NewManager); non-trivial = at least 4 items and 2 applied blocks; distinct = distinct (chain, history) pairs; plus the DA-ingress scenario stream (real RetrieveLoop + SyncLoop on a scripted DA layer, stop right after a commit, restart, converge; oracle only); plus the P2P-ingress scenario stream (real HeaderStoreRetrieveLoop + DataStoreRetrieveLoop, with the real SyncLoop or with the harness as consumer of the event channels, on fake go-header stores whose height jumps by 1..300 between signals over a 320-block chain; transient read failures, DA position changes, clean restarts, stops inside a burst; every wake-up compared with Model/P2PIngress.v in cases_C02_p2p.v)"
+	res.Rule = "chains of 3..13 blocks (thorough: ..41) from a real aggregator Manager (initial height in {1,2,5,1000}, ~35% empty blocks with runs, 10% of chains repeat a non-empty tx list); history = every header/data event of the chain (25% of histories drop ~8% of events), duplicated 1-3x, order in {sorted, reversed, headers-first, data-first, near-sorted, shuffled}, random DA tags, 0-2 clean restarts (SaveCache + NewManager); a third of the chains is produced by an aggregator and synced by a node with a NON-default signature payload provider (block.ManagerOptions; headers are handed to SyncLoop with the provider attached, as both ingress paths do); 40% of the histories carry 1-3 transient store read faults (the store handed to the syncing Manager fails one chosen store.Height() call while one event is handled: the read of the SyncLoop case, or a read inside trySyncNextBlock which makes SyncLoop return until the next start; GetBlockData failing in handleEmptyDataHash), every event lost to a failed read is delivered again later; non-trivial = at least 4 items and 2 applied blocks; distinct = distinct (chain, history) pairs; plus the DA-ingress scenario stream (real RetrieveLoop + SyncLoop on a scripted DA layer, stop right after a commit, restart, converge; oracle only); plus the P2P-ingress scenario stream (real HeaderStoreRetrieveLoop + DataStoreRetrieveLoop, with the real SyncLoop or with the harness as consumer of the event channels, on fake go-header stores whose height jumps by 1..300 between signals over a 320-block chain; transient read failures, DA position changes, clean restarts, stops inside a burst; every wake-up compared with Model/P2PIngress.v in cases_C02_p2p.v)"
 	res.Cases += len(cases)
 	path := filepath.Join(e.Out, "cases_C02.v")
 	if err := vgen.WriteCases(path, syncdrv.CoqHeader, defs, "scase", cases, "mismatches"); err != nil {
